@@ -699,22 +699,25 @@ class Path(PathDeprecations):
 
     def get_content(self, mode: str = "r") -> str:
         """Returns the contents of the file or the remote path."""
-        if self._std_io:
-            return read_cached_stdin()
-        elif self._is_url:
-            assert mode == "r"
-            requests = import_requests("Path.get_content")
-            response = requests.get(self._absolute)
-            response.raise_for_status()
-            return response.text
-        elif self._is_fsspec:
-            fsspec = import_fsspec("Path.get_content")
-            with fsspec.open(self._absolute, mode) as handle:
-                with handle as input_file:
+        try:
+            if self._std_io:
+                return read_cached_stdin()
+            elif self._is_url:
+                assert mode == "r"
+                requests = import_requests("Path.get_content")
+                response = requests.get(self._absolute)
+                response.raise_for_status()
+                return response.text
+            elif self._is_fsspec:
+                fsspec = import_fsspec("Path.get_content")
+                with fsspec.open(self._absolute, mode) as handle:
+                    with handle as input_file:
+                        return input_file.read()
+            else:
+                with open(self._absolute, mode) as input_file:
                     return input_file.read()
-        else:
-            with open(self._absolute, mode) as input_file:
-                return input_file.read()
+        except UnicodeDecodeError as ex:
+            raise PathError(f"Unable to decode the content of {self._absolute!r}: {ex}") from ex
 
     @contextmanager
     def open(self, mode: str = "r") -> Iterator[IO]:
